@@ -18,6 +18,26 @@ CLAIMS = {
               "fields outside the block hash. Digest arithmetic is trusted."),
         technique="MIR event-sequence extraction + transitive field-read coverage on the instance call graph",
         design_ref="§4 C02"),
+    "C05": dict(
+        category="other",
+        text=("Decides, for every path of Transaction::verify_tx_amt_proofs at once, the must-pass-through clauses of C05: the "
+              "length check dominates all work, Ok(()) is reachable only through the success edge of the balance check, and no "
+              "path from a confidential value/asset to the next output avoids the missing-proof check and the success edge of "
+              "RangeProof::verify / SurjectionProof::verify; plus the argument bindings of the three checks, every push into "
+              "the domain/commitment vectors, the get_value_commit decision table, zero-value admissibility and the exact-value "
+              "proof verifiers. That libsecp256k1-zkp rejects a tampered proof is trusted."),
+        technique="CFG must-pass-through / failing-edge reachability + provenance of call arguments + decision table",
+        design_ref="§4 C05"),
+    "C14": dict(
+        category="other",
+        text=("Decides the information-preservation clauses of C14 for all PSETs: every non-identity field of `other` flows into "
+              "the same field of `self` in Input/Output/Global::merge, no merge assigns a constant to a field of self, all "
+              "mutation in PartiallySignedTransaction::merge is dominated by the unique-id comparison with a UniqueIdMismatch "
+              "error edge and sub-merge errors propagate, and a predicate-abstraction walk of the xpub key-source branch over the "
+              "seven classes of key-source pairs yields the documented keep/insert/conflict table without a panic. Conflicting "
+              "values under one map key are outside the property's quantifier."),
+        technique="resolved write-effect coverage with data dependence + dominance of the id gate + predicate-abstraction decision table",
+        design_ref="§4 C14"),
 }
 
 NOT_YET = "rule set designed in DESIGN.md but not built yet in this round; no claim is made"
